@@ -177,6 +177,7 @@ impl EndS {
             &&& (r is Err ==> final(self).sent@ == old(self).sent@)
         }),
         old(self).link.st is CloseReceived && r is Ok ==> final(self).link.st is Closed,
+        old(self).link.st is CloseReceived && old(self).has_handle@ && final(self).failures@ == old(self).failures@ ==> r is Ok,           // [C13.link.close-always-answered] a peer's closing detach IS answered by close() unless the channel to the session is gone
         // local-initiated close of an attached link
         old(self).link.st is Attached ==> ({
             &&& (final(self).sent@.len() > old(self).sent@.len() ==> final(self).sent@[old(self).sent@.len() as int] == (true, error))        // [C13.link.local-close-frame] the first thing queued is ONE closing detach carrying the application's error
